@@ -136,7 +136,7 @@ DrainEnd(w1, d) ==
                            THEN Bad(w1, {"C06"}, "channels_not_closed_after_close") ELSE Settle(w1)
     [] d.end = "closed" -> IF w1.phase = "open" THEN Bad(w1, {"C06"}, "channel_closed_without_close")
                            ELSE IF w1.postClose > (IF w1.cap < 0 THEN 0 ELSE w1.cap) THEN Bad(w1, {"C06"}, "events_after_close") ELSE w1
-    [] OTHER -> w1
+    [] OTHER -> w1      \* "partial": only one channel was received from; nothing is settled
 
 DrainW(ws, d) ==
   LET S == IF d.vals = <<>> THEN {ws}
